@@ -44,6 +44,10 @@ type Case struct {
 	// FullPathOverride: default_package_name is a full import path at which nothing lives; the
 	// import_path_overrides entry keyed by that full path names the real place of the structs.
 	FullPathOverride bool
+	// DigitPath: the struct package lives in a module whose path begins with a digit.
+	DigitPath bool
+	// HyphenPath: the last element of the struct import path is not an identifier ("go-<pkg>_x") and differs from the package name.
+	HyphenPath bool
 	// MixedCasePkg: the struct package has a Go name with capitals (go_package = "<name>Api").
 	MixedCasePkg bool
 	// RawParam, when set, replaces the computed parameter string (C16 error cases).
@@ -97,6 +101,12 @@ func (w *Workspace) Prepare(c *Case) {
 		c.StructImport = base + "/" + c.StructPkg
 		if c.DottedPath {
 			c.StructImport += ".v1"
+		}
+		if c.HyphenPath {
+			c.StructImport = base + "/go-" + c.StructPkg + "_x"
+		}
+		if c.DigitPath {
+			c.StructImport = DigitModule + "/cases/" + c.Name + "/" + c.StructPkg
 		}
 		tp := c.Cfg.TargetPackageName
 		if tp == "" {
@@ -278,7 +288,15 @@ func (c *Case) GeneratedTypes() []string {
 	return r
 }
 
-func relDir(importPath string) string { return strings.TrimPrefix(importPath, "vw/") }
+// DigitModule is a second module of the workspace whose path begins with a digit (9fans.net style).
+const DigitModule = "9vw.example"
+
+func relDir(importPath string) string {
+	if strings.HasPrefix(importPath, DigitModule+"/") {
+		return "_ext9/" + strings.TrimPrefix(importPath, DigitModule+"/")
+	}
+	return strings.TrimPrefix(importPath, "vw/")
+}
 
 func (w *Workspace) writeCase(c *Case, gresp *pluginpb.CodeGeneratorResponse) error {
 	// gogo output: one .pb.go per generated file (we generate the main file; the
